@@ -490,9 +490,14 @@ def inv_case_st():
         invs = case["invariants"]
         if len(invs) < 2:
             invs = invs + [dict(invs[0], c=invs[0]["c"] + 1 if invs[0]["cmp"] != "eq" else invs[0]["c"])]
-        return dict(case, kind="inv", invariants=invs[:2], depth=min(case["depth"], 2), meta=None)
+        out = dict(case, kind="inv", invariants=invs[:2], depth=max(1, min(case["depth"], 2)), meta=None)
+        if case["seed"] % 3 == 0:
+            # the first invariant gives up early (--width 1 from its own annotation): what it leaves in
+            # the shared frontier cache must not change the other invariant's result
+            out["inv_devdoc"] = {"0": "--width 1"}
+        return out
 
-    return st.one_of(c15.case_st(), c15.confluent_st(), c15.permute_st()).map(two)
+    return st.one_of(c15.case_st(), c15.confluent_st(), c15.permute_st(), c15.split_st()).map(two)
 
 
 def shards(tier):
